@@ -25,7 +25,7 @@ void pfx_table_notify_diff(struct pfx_table *new_table, struct pfx_table *old_ta
 /* ---- spki private ---- */
 #ifndef RTR_SPKI_PRIVATE_H
 enum spki_rtvals { SPKI_SUCCESS = 0, SPKI_ERROR = -1, SPKI_DUPLICATE_RECORD = -2, SPKI_RECORD_NOT_FOUND = -3 };
-void spki_table_init(struct spki_table *spki_table, spki_update_fp update_fp);
+int spki_table_init(struct spki_table *spki_table, spki_update_fp update_fp);
 void spki_table_free(struct spki_table *spki_table);
 void spki_table_free_without_notify(struct spki_table *spki_table);
 int spki_table_add_entry(struct spki_table *spki_table, struct spki_record *spki_record);
@@ -70,6 +70,7 @@ void shim_spki_table_delete(struct spki_table *t);	   /* spki_table_free + free 
 void shim_spki_set_update_fp(struct spki_table *t, spki_update_fp fp);
 unsigned int shim_spki_count(struct spki_table *t); /* hashlin count (for resize-step classification only) */
 unsigned int shim_spki_bucket_bits(struct spki_table *t);
+void *shim_spki_lock(struct spki_table *t); /* address of the table's pthread_rwlock_t */
 uint32_t shim_inthash_u32(uint32_t key); /* tommy_inthash_u32, to build colliding AS groups */
 unsigned int shim_rtr_max_pdu_len(void);
 unsigned int shim_rtr_recv_timeout(void);
